@@ -95,10 +95,35 @@ pub fn dirty_bytes(rng: &mut Rng, fresh: Option<&[u8]>, allow_invalid: bool) -> 
             }
         }
     }
+    // the right text with the other line ending throughout
+    if rng.chance(1, 12) {
+        if let Some(f) = fresh {
+            if f.contains(&b'\n') {
+                let mut v = Vec::with_capacity(f.len() + 16);
+                let crlf = f.windows(2).any(|w| w == b"\r\n");
+                for (i, c) in f.iter().enumerate() {
+                    if *c == b'\n' && !crlf {
+                        v.push(b'\r');
+                    }
+                    if *c == b'\r' && crlf && f.get(i + 1) == Some(&b'\n') {
+                        continue;
+                    }
+                    v.push(*c);
+                }
+                return Some(v);
+            }
+        }
+    }
     let cls = rng.below(if allow_invalid { 7 } else { 5 });
     let mut v = match cls {
         0 => return None,
-        1 => format!("{token}\nold content\n").into_bytes(),
+        1 => {
+            if rng.chance(1, 3) {
+                format!("{token}\r\nold content\r\n").into_bytes()
+            } else {
+                format!("{token}\nold content\n").into_bytes()
+            }
+        }
         2 => vec![],
         3 => {
             // prefix of the right bytes (at a character boundary)
